@@ -22,7 +22,7 @@ class Prop(PropBase):
     lean_targets = ["PbProps.C05"]
     theorems = ["Pb.C05." + t for t in ("C05_constant", "C05_phase_law", "C05_phase_neg", "C05_unit_modulus",
                                         "C05_inverse_pointwise", "C05_inverse", "C05_group_delay", "C05_model_matches_real",
-                                        "C05_crop_valid", "C05_crop_tight", "C05_crop_impl")]
+                                        "C05_crop_valid", "C05_crop_tight", "C05_crop_impl", "C05_infinite_reference")]
     trusted_base = ["PbModel/Disp.lean + Gen/Disp.lean", "numpy.fft complex128 oracle"]
     assumptions = ["band entirely at positive frequencies"]
     rule = ("DM +-1e-4..1e2 scaled so band-edge delays span 0..>N samples; centre 0.15-1.4 GHz, rate 1 kHz-16 MHz, nchan 1-4 x 3 "
@@ -44,7 +44,7 @@ class Prop(PropBase):
             cls = rng.choice(["BasebandSignal", "DualPolarizationSignal"])
             yield {"op": "coh", "cls": cls, "N": N, "n": rng.choice([1, 2, 3, 4]), "al": rng.choice(["bottom", "center", "top"]),
                    "cf": rng.choice([150e6, 400e6, 800e6, 1.4e9]), "rate": rng.choice([1e3, 1e5, 1e6, 16e6]),
-                   "ref": rng.choice(["none", "top", "bottom", "above", "below", "inside"]),
+                   "ref": rng.choice(["none", "top", "bottom", "above", "below", "inside", "inf"]),
                    "target": rng.choice([0.3, 1.0, 2.5, 7.75, N / 4, N / 2, N - 1, N + 2.5, 2 * N, rng.uniform(0, N)]),
                    "sign": rng.choice([1, -1]), "dtype": rng.choice(["c8", "c16"]), "extra": rng.choice([0, 0, 2]),
                    "dask": rng.random() < 0.2, "t0": rng.choice(sigs.T0S + [None]), "seed": rng.randrange(1 << 30)}
@@ -63,8 +63,9 @@ class Prop(PropBase):
 
     def _ref(self, case, z):
         r = {"none": None, "top": z.max_freq, "bottom": z.min_freq, "above": z.max_freq + 2 * z.bandwidth,
-                "below": z.min_freq * 0.8, "inside": z.center_freq + 0.25 * z.chan_bw}[case["ref"]]
-        if r is not None and case.get("seed", len(str(case))) % 5 == 2:
+                "below": z.min_freq * 0.8, "inside": z.center_freq + 0.25 * z.chan_bw,
+                "inf": self.np.inf * self.u.MHz}[case["ref"]]     # the customary infinite reference frequency
+        if r is not None and case["ref"] != "inf" and case.get("seed", len(str(case))) % 5 == 2:
             r = r.to(self.u.GHz if case.get("seed", 0) % 2 else self.u.Hz)      # the same reference frequency in another unit
         return r
 
@@ -84,7 +85,7 @@ class Prop(PropBase):
         dtop = float(DM.sample_delay(z.max_freq, r, z.sample_rate))
         dbot = float(DM.sample_delay(z.min_freq, r, z.sample_rate))
         out = {"dm": X.rat(X.frac(dmv)), "dtop": X.rat(X.frac(dtop)), "dbot": X.rat(X.frac(dbot)),
-               "ref_hz": X.rat(X.q_value(r, u.Hz)),
+               "ref_hz": "inf" if case["ref"] == "inf" else X.rat(X.q_value(r, u.Hz)),
                "labels": [X.rat(X.q_value(f, u.Hz)) for f in z.channel_freqs]}
         try:
             kw = {} if ref is None else {"ref_freq": ref}
@@ -131,7 +132,9 @@ class Prop(PropBase):
         xd = np.asarray(z.data)
         # independent exact-phase oracle (Fraction arithmetic)
         N = case["N"]
-        dmF, refF, rateF = X.frac(dmv), X.q_value(r, u.Hz), X.frac(case["rate"])
+        inf_ref = case["ref"] == "inf"
+        dmF, refF, rateF = X.frac(dmv), (None if inf_ref else X.q_value(r, u.Hz)), X.frac(case["rate"])
+        irF = F(0) if inf_ref else 1 / refF
         Hs, ratios = [], []
         for c, f_c in enumerate(z.channel_freqs):
             fc = X.q_value(f_c, u.Hz)
@@ -139,17 +142,17 @@ class Prop(PropBase):
             for k in range(N):
                 b = k if k < (N + 1) // 2 else k - N
                 f = fc + F(b) * rateF / N
-                p = K_HZ * dmF * f * (1 / refF - 1 / f) ** 2
+                p = K_HZ * dmF * f * (irF - 1 / f) ** 2
                 ph.append(float(p - math.floor(p)))
                 # float64 evaluation of K*DM*f*(1/ref - 1/f)^2: a few ulp of the phase, plus the cancellation in
                 # (1/ref - 1/f), whose relative error is 2^-52 * f/|f - ref| and enters squared (x2)
-                canc = float(f / abs(f - refF)) if f != refF else 0.0
+                canc = 0.0 if inf_ref or f == refF else float(f / abs(f - refF))
                 tolk.append(2 * math.pi * (abs(float(p)) + 1.0) * (2.0 ** -42 + 2.0 ** -50 * canc) + 2.0 ** -21)
             want = np.exp(-2j * np.pi * np.array(ph))
             Hs.append(want)
             ratios.append(float(np.max(np.abs(chm[:, c] - want) / np.array(tolk))))
         out["chirp_ratio"] = max(ratios)
-        out["chirp_tol_turns"] = [float((abs(float(K_HZ * dmF * X.q_value(f_c, u.Hz) * (1 / refF - 1 / X.q_value(f_c, u.Hz)) ** 2)) + 1.0)
+        out["chirp_tol_turns"] = [float((abs(float(K_HZ * dmF * X.q_value(f_c, u.Hz) * (irF - 1 / X.q_value(f_c, u.Hz)) ** 2)) + 1.0)
                                         * 2.0 ** -48 * 64 + 2.0 ** -20 / (2 * math.pi)) for f_c in z.channel_freqs]
         start = math.ceil(-min(0, F(float(dtop)), F(float(dbot))))
         if len(y) > 0:
